@@ -72,7 +72,8 @@ Print Assumptions C09_nokey_none_not_empty.
 Theorem C09_oracle_sound : forall c o,
   ok c o = true <->
   (length o = ncalls (ops c) /\ (forall r, In r o -> r <> CHang /\ r <> CPanic))
-  /\ ok_walk (nokey c) (ops c) o [] [] 0 0 = true /\ ok_progress c o = true.
+  /\ ok_walk (nokey c) (ops c) o [] [] 0 0 = true /\ ok_progress c o = true
+  /\ ok_pending c o = true.
 Proof. exact ok_spec. Qed.
 Print Assumptions C09_oracle_sound.
 
